@@ -255,6 +255,20 @@ def check(tier, seed):
     twins = P.twin_pairs(rng.randrange(1 << 30), per=1 if tier == 'quick' else 8)
     for k, ta, tb in twins:
         pairs.append(('twin:' + k, ta, tb))
+    # names that already carry a .MERGE suffix (files that were merged before): both x and x.MERGE of B collide with different
+    # objects of A - the two new names must differ and every reference must follow its own object
+    def _hand(dt_a, dt_b, names):
+        head = 'ASAP2_VERSION 1 71\n/begin PROJECT p ""\n/begin MODULE m ""\n'
+        meas = lambda n, dt: '/begin MEASUREMENT %s "" %s NO_COMPU_METHOD 0 0 0 100 /end MEASUREMENT\n' % (n, dt)
+        ta = head + ''.join(meas(n, dt_a) for n in names) + '/end MODULE\n/end PROJECT\n'
+        tb = (head + ''.join(meas(n, dt_b) for n in names) +
+              '/begin FUNCTION f "" /begin IN_MEASUREMENT %s /end IN_MEASUREMENT /begin OUT_MEASUREMENT %s /end OUT_MEASUREMENT /end FUNCTION\n' % (names[0], names[-1]) +
+              '/begin GROUP g "" /begin REF_MEASUREMENT %s /end REF_MEASUREMENT /end GROUP\n' % ' '.join(names) +
+              '/end MODULE\n/end PROJECT\n')
+        return ta, tb
+    for names in (['speed', 'speed.MERGE'], ['speed', 'speed.MERGE', 'speed.MERGE2'], ['v.MERGE', 'v.MERGE.MERGE'], ['w.MERGE2', 'w']):
+        ta, tb = _hand('FLOAT32_IEEE', 'SWORD', names)
+        pairs.append(('hand:merge-suffix', ta, tb))
     loads = R.run_cases('LOAD', [R.load_case(t) for ov, ta, tb in pairs for t in (ta, tb)], binary=impl)
     merges = R.run_cases('MERGE', [R.merge_case(ta, tb) for ov, ta, tb in pairs], binary=impl)
     failures, stats_all, new_dangling = [], {}, 0
